@@ -137,6 +137,114 @@ def _widened_signed(f, ft, ops):
     return True
 
 
+
+ZERO_CALL = re.compile(r"::(ilog2|ilog10|ilog|div_ceil|next_multiple_of|rem_euclid|div_euclid|chunks|chunks_exact|chunks_mut|chunks_exact_mut|par_chunks|par_chunks_exact|windows|step_by)$")
+
+
+def _returns_shifted_constant(g):
+    """the function's return value is `K << x` (K >= 1) on every definition of _0 — e.g. MpqHeader::sector_size = 512 << block_size
+    (the shift count is bounded where the header is read: validate_header_security rejects shifts the type cannot hold)"""
+    if g is None or not g.mir.get("blocks"):
+        return False
+    du = mirg.DefUse(g)
+    work, seen, found = [0], set(), False
+    while work:
+        l = work.pop()
+        if l in seen:
+            continue
+        seen.add(l)
+        for _b, k_, p_ in du.defs.get(l, []):
+            if k_ != "assign":
+                return False
+            rv = p_[2]
+            if rv[0] == "bin" and rv[1] in ("Shl", "ShlUnchecked") and (mirg.op_int(rv[2]) or 0) >= 1:
+                found = True
+            elif rv[0] in ("use", "cast", "copy", "move"):
+                for o_ in mirg.rvalue_operands(rv):
+                    if op_local(o_) is None:
+                        return False
+                    work.append(op_local(o_))
+            else:
+                return False
+    return found
+
+
+def _nonzero_evidence(ft, f, op, bb, world=None, cg=None, depth=0):
+    """why an input-derived operand cannot be 0 at block bb: a dominating branch establishes >= 1, or its derivation passes through
+    max(.., k>=1) / clamp / NonZero / `| odd constant` / `+ positive constant`"""
+    if ft.cfg is None:
+        ft.cfg = mirg.Cfg(f)
+        ft.du = mirg.DefUse(f)
+    l0 = op_local(op)
+    if l0 is not None and cg is not None:
+        anc0, calls0, _ = ft.du.slice_back(l0, depth=6, through_index=False)
+        for c in calls0:
+            g = cg.fns.get(ncallee(c) or "") or cg.fns.get(mirg.callee(c) or "")
+            if g is not None and _returns_shifted_constant(g):
+                return "value of %s, a shifted positive constant" % g.path.split("::")[-1]
+        # a parameter never reassigned: the evidence is owed by every caller (one level)
+        nargs = len(f.d.get("inputs") or [])
+        for _ in range(4):       # plain copies of a parameter
+            ds_ = ft.du.defs.get(l0, [])
+            if len(ds_) == 1 and ds_[0][1] == "assign" and ds_[0][2][2][0] in ("use", "copy", "move") and op_local(ds_[0][2][2][1]) is not None and not pproj(ds_[0][2][2][1][1]):
+                l0 = op_local(ds_[0][2][2][1])
+            else:
+                break
+        if depth < 1 and world is not None and 1 <= l0 <= nargs and not [d for d in ft.du.defs.get(l0, []) if d[1] == "assign"]:
+            sites = [(cp, b_, t_) for cp in cg.callers.get(f.path, ()) for (b_, t_, cal) in cg.sites.get(cp, []) if cal == f.path]
+            if sites:
+                whys = []
+                for cp, b_, t_ in sites:
+                    cf = cg.fns.get(cp)
+                    cft = world.results.get(cp)
+                    if cf is None or cft is None or len(t_["a"]) < l0:
+                        whys = None
+                        break
+                    a_ = t_["a"][l0 - 1]
+                    if mirg.op_int(a_) is not None and mirg.op_int(a_) >= 1:
+                        whys.append("constant")
+                        continue
+                    w_ = _nonzero_evidence(cft, cf, a_, b_, world, cg, depth + 1) if cft.operand_tainted(a_) else "not input-derived in the caller"
+                    if not w_:
+                        whys = None
+                        break
+                    whys.append(w_)
+                if whys:
+                    return "every caller passes a non-zero value (%s)" % "; ".join(sorted(set(whys)))[:120]
+    lb = ft.lower_bound_at(op, bb)
+    if lb is not None and lb >= 1:
+        return "dominating lower bound %d" % lb
+    if ft.cfg is None:
+        ft.cfg = mirg.Cfg(f)
+        ft.du = mirg.DefUse(f)
+    l = op_local(op)
+    if l is None:
+        return "constant"
+    anc, calls, _ = ft.du.slice_back(l, depth=6, through_index=False)
+    for c in calls:
+        cn = ncallee(c) or ""
+        if re.search(r"NonZero|::next_power_of_two$", cn):
+            return "derivation passes " + cn.split("::")[-1]
+        # max(x, K) / clamp(x, K, _) with a constant K >= 1 (the maximum of two input values can still be 0)
+        if re.search(r"::max$|::clamp$", cn) and any((mirg.op_int(a_) or 0) >= 1 for a_ in c.get("a", [])[1:2]):
+            return "derivation passes %s with a positive constant" % cn.split("::")[-1]
+    for a in anc | {l}:
+        for _b, k_, p_ in ft.du.defs.get(a, []):
+            if k_ == "assign" and p_[2][0] == "bin" and p_[2][1] in ("BitOr", "Add", "AddWithOverflow", "Shl"):
+                ks = [mirg.op_int(o) for o in (p_[2][2], p_[2][3])]
+                if p_[2][1] == "BitOr" and any(k is not None and k & 1 for k in ks):
+                    return "or-ed with an odd constant"
+                if p_[2][1] in ("Add", "AddWithOverflow") and any(k is not None and k >= 1 for k in ks):
+                    return "a positive constant is added"
+                if p_[2][1] == "Shl" and mirg.op_int(p_[2][2]) is not None and mirg.op_int(p_[2][2]) >= 1:
+                    return "a shifted positive constant"
+    # the same value tested by a dominating `== 0` / `!= 0` / `> 0` on a copy reached through a field place
+    s_ = ft.sanitised(op, bb, zero_test=True, lower_ok=True)
+    if s_ and s_.startswith("dominating zero test"):
+        return s_
+    return None
+
+
 def probe_wrap_exit_rule(ctx, prog, pid):
     """cyclic probe loops over a table taken from an opened archive terminate when the table has no free slot (shared by C05: a
     hostile/full table must not hang a lookup, and C06: every mutation operation terminates)"""
@@ -217,6 +325,7 @@ def run(ctx):
     R_narrow = ctx.rule("C05.C2-no-overflow-at-read-width", "no overflow-checked add/multiply of two input fields at the width they were read at without a bound on either", floor=30)
     R_index = ctx.rule("C05.D-no-constant-index-on-unchecked-buffer", "no `buf[k]` (constant k) on a buffer whose length is input-controlled and was not checked", floor=5)
     R_fixed = ctx.rule("C05.F-input-index-into-fixed-array-bounded", "every input-derived component of an index into a fixed-size array is clamped or compared on its own path", floor=20)
+    R_zero = ctx.rule("C05.N-zero-sensitive-operation-on-input-is-guarded", "every operation that panics on 0 — `/`, `%`, ilog2/ilog10/ilog, div_ceil, next_multiple_of, rem_euclid, div_euclid, chunks*/windows/step_by — whose critical operand derives from input is dominated by a branch that establishes operand >= 1 (or the operand passed through max / NonZero / `| 1`)", floor=20)
     R_rec = ctx.rule("C05.E-no-unbounded-recursion", "no call-graph cycle reachable from an entry point lacks a depth bound", floor=1)
 
     cg = mirg.CallGraph(crates)
@@ -274,6 +383,22 @@ def run(ctx):
                             else:
                                 ctx.bad(R_index, "D|%s|[%d]" % (path, k), "%s:%d" % (f.file, t["ln"]), "constant index [%d] into a buffer whose length is input-controlled (%s) and unchecked" % (k, lw),
                                         "an empty/short buffer panics with index out of bounds")
+                zm = ZERO_CALL.search(c)
+                if zm and not t.get("x") and len(t["a"]) > (0 if zm.group(1).startswith("ilog") else 1):
+                    crit = t["a"][0 if zm.group(1).startswith("ilog") else 1]
+                    whyz = ft.operand_tainted(crit)
+                    ctx.call_sites += 1
+                    instz = {"fn": path, "op": zm.group(1), "line": t["ln"]}
+                    if not whyz or mirg.op_int(crit) is not None:
+                        ctx.ok(R_zero, instz) if len(ctx.samples) < 360 else (ctx.rules[R_zero].__setitem__("obligations", ctx.rules[R_zero]["obligations"] + 1), ctx.rules[R_zero].__setitem__("discharged", ctx.rules[R_zero]["discharged"] + 1))
+                    else:
+                        okz = _nonzero_evidence(ft, f, crit, bb, world, cg)
+                        if okz:
+                            instz["nonzero_by"] = okz
+                            ctx.ok(R_zero, instz)
+                        else:
+                            ctx.bad(R_zero, "N|%s|%s" % (path, zm.group(1)), "%s:%d" % (f.file, t["ln"]), "`%s` on an input-derived value (%s) that no dominating branch shows to be non-zero" % (zm.group(1), whyz),
+                                    "a zero in that field panics the parser (`%s` of zero / by zero)" % zm.group(1))
                 if c in ALLOC and len(t["a"]) > ALLOC[c]:
                     ctx.call_sites += 1
                     a = t["a"][ALLOC[c]]
@@ -390,6 +515,29 @@ def run(ctx):
                 key = "C|%s|%s" % (path, opk)
                 ctx.bad(R_arith, key, "%s:%d" % (f.file, t["ln"]), "overflow-checked %s on input-derived operand(s) (%s) with no ordering check before it" % (opk, ", ".join(w for w in whys if w)),
                         "hostile field values panic the parser in debug builds and wrap in release (then size allocations / slice bounds)")
+            elif t["k"] == "assert" and t["ak"] in ("divzero", "remzero") and not t.get("x"):
+                # the divisor is the operand compared with 0 in the statement defining the assert's condition
+                du_ = ft.du if getattr(ft, "du", None) is not None else mirg.DefUse(f)
+                cl_ = op_local(t["c"])
+                div = None
+                for _b, k_, p_ in du_.defs.get(cl_, []) if cl_ is not None else []:
+                    if k_ == "assign" and p_[2][0] == "bin" and p_[2][1] in ("Eq", "Ne"):
+                        a_, b_ = p_[2][2], p_[2][3]
+                        div = a_ if mirg.op_int(b_) == 0 else (b_ if mirg.op_int(a_) == 0 else None)
+                if div is None or mirg.op_int(div) is not None:
+                    continue
+                whyz = ft.operand_tainted(div)
+                instz = {"fn": path, "op": "/" if t["ak"] == "divzero" else "%", "line": t["ln"]}
+                if not whyz:
+                    ctx.ok(R_zero, instz) if len(ctx.samples) < 360 else (ctx.rules[R_zero].__setitem__("obligations", ctx.rules[R_zero]["obligations"] + 1), ctx.rules[R_zero].__setitem__("discharged", ctx.rules[R_zero]["discharged"] + 1))
+                else:
+                    okz = _nonzero_evidence(ft, f, div, bb, world, cg)
+                    if okz:
+                        instz["nonzero_by"] = okz
+                        ctx.ok(R_zero, instz)
+                    else:
+                        ctx.bad(R_zero, "N|%s|%s" % (path, "div" if t["ak"] == "divzero" else "rem"), "%s:%d" % (f.file, t["ln"]), "division / remainder by an input-derived value (%s) that no dominating branch shows to be non-zero" % whyz,
+                                "a zero in that field panics the parser (attempt to divide by zero)")
             elif t["k"] == "assert" and t["ak"] == "bounds" and not t.get("x") and mirg.op_int(t["ops"][0]) is not None and mirg.op_int(t["ops"][1]) is None:
                 # F: index into a fixed-size array (constant length): every input-derived additive/multiplicative leaf of the
                 # index must itself be bounded (a clamp on one coordinate does not bound the other)
@@ -679,6 +827,58 @@ def run(ctx):
     # J: an index guarded by an *inclusive* upper bound (`if i <= n { v[i] }`, `if i > n { return Err } .. v[i]`): the guard admits
     # i == n, one past the end of a container of n elements.  Expected count on a correct tree is zero; instances of the guard
     # shape (exclusive forms included) are counted so that the rule is seen to look at something.
+    # O: where an index into a locally built Vec is guarded by a comparison, the comparison is with *that* Vec's length (or with the
+    # very expression the Vec was sized with) — a count taken from the header says how many elements were announced, not how many
+    # were collected (a first pass that stops early leaves the Vec shorter)
+    R_own = ctx.rule("C05.O-index-guard-compares-with-the-indexed-collection", "every `if i < X { .. v[i] .. }` on a local Vec v has X = v.len() (or the expression v was allocated with)", floor=4)
+    for cn_ in CRATES:
+        cr_ = prog.crate(cn_)
+        for f in cr_.fn_list:
+            if f.kind == "Closure" or not f.hir or "::tests::" in f.path:
+                continue
+            lets_ = {l["pat"]["name"]: l["init"] for l in hirq.find(f.hir["body"], "let") if l["pat"].get("k") == "bind" and l.get("init") is not None}
+
+            def rec_(n, conds, f=f, cr_=cr_, lets_=lets_):
+                if isinstance(n, dict):
+                    if n.get("k") == "if" and n["c"].get("k") != "letx":
+                        rec_(n["c"], conds)
+                        rec_(n["then"], conds + [n["c"]])
+                        if n.get("else") is not None:
+                            rec_(n["else"], conds)
+                        return
+                    if n.get("k") == "index":
+                        base, ix = hirq.strip(n["e"]), hirq.strip(n["i"])
+                        while ix.get("k") == "cast":
+                            ix = hirq.strip(ix["e"])
+                        if base.get("k") == "path" and "local" in base["res"] and ix.get("k") == "path" and "local" in ix["res"] and re.search(r"Vec<", cr_.ty(base.get("t")) or ""):
+                            V, I = base["res"]["local"], ix["res"]["local"]
+                            for c in conds:
+                                for cmp_ in hirq.walk(c):
+                                    if not (cmp_.get("k") == "bin" and cmp_["op"] in ("<", "<=", ">", ">=")):
+                                        continue
+                                    l_, r_ = hirq.render(cmp_["l"]), hirq.render(cmp_["r"])
+                                    li, ri = re.search(r"\b%s\b" % re.escape(I), l_), re.search(r"\b%s\b" % re.escape(I), r_)
+                                    if bool(li) == bool(ri):
+                                        continue
+                                    oth = r_ if li else l_
+                                    if not re.search(r"len\(\)|count|size|num", oth):
+                                        continue
+                                    ctx.saw_fn(f)
+                                    inst = {"fn": norm(f.path), "vec": V, "guard": hirq.render(cmp_)[:70]}
+                                    sized = hirq.render(lets_.get(V) or {})
+                                    if re.search(r"\b%s\.len\(\)" % re.escape(V), oth) or (oth.strip("()").replace(" as _", "") and oth.strip("()").replace(" as _", "") in sized and re.search(r"from_elem|vec!|with_capacity|repeat", sized)):
+                                        ctx.ok(R_own, inst)
+                                    else:
+                                        ctx.bad(R_own, "O|%s|%s" % (norm(f.path), V), "%s:%d" % (f.file, n.get("ln") or 0), "`%s[%s]` is guarded by `%s` — a bound that is not the length of `%s`" % (V, I, hirq.render(cmp_)[:60], V),
+                                                "when `%s` holds fewer elements than that bound (a collecting pass that stopped early, a filtered list) an index the guard lets through is out of bounds: the parser panics" % V)
+                    for v in n.values():
+                        if isinstance(v, (dict, list)):
+                            rec_(v, conds)
+                elif isinstance(n, list):
+                    for v in n:
+                        rec_(v, conds)
+            rec_(f.hir["body"], [])
+
     R_incl = ctx.rule("C05.J-index-guard-is-exclusive", "no index expression is guarded by an inclusive comparison `i <= bound` / `!(i > bound)` on the index itself", floor=30)
 
     def _copies(du_, l_):
